@@ -261,6 +261,12 @@ pub fn judge(terms: &[&Term]) -> Report {
 /// `=`/`equal?`-like the old one (1/2 and 0.5, two closures of one lambda)
 fn second_declaration_cases() -> Vec<(Vec<&'static str>, &'static str)> {
     vec![
+        // two prefixes over one library in one interpreter: in one declaration, in successive ones, nested
+        (vec!["(import (scheme base) (prefix (t twins) p-) (prefix (t twins) q-))"], "@(list p-x q-x p-y q-y (p-p) (q-q))=(1/2 1/2 0.5 0.5 1 2)"),
+        (vec!["(import (scheme base) (prefix (t twins) p-))", "(import (prefix (t twins) q-))"], "@(list p-x q-x (p-p) (q-q))=(1/2 1/2 1 2)"),
+        (vec!["(import (scheme base) (prefix (t twins) q-))", "(import (prefix (t twins) p-) (prefix (prefix (t twins) a-) b-))"], "@(list p-x q-x b-a-y)=(1/2 1/2 0.5)"),
+        // a builtin imported under another name is the same procedure
+        (vec!["(import (scheme base) (prefix (only (scheme base) car cdr) p-) (rename (only (scheme base) cons) (cons kons)))"], "@(list (eqv? p-car car) (eqv? p-cdr cdr) (eqv? kons cons) (eqv? p-car p-cdr) (p-car (kons 1 2)))=(#t #t #t #f 1)"),
         (vec!["(import (scheme base) (t twins))", "(import (rename (t twins) (x y) (y x) (p q) (q p)))"], "(0.5 1/2 2 1)"),
         (vec!["(import (scheme base) (rename (t twins) (x y) (y x) (p q) (q p)))", "(import (t twins))"], "(1/2 0.5 1 2)"),
         (vec!["(import (scheme base) (only (t twins) x p) (rename (only (t twins) y q) (y yy) (q qq)))", "(import (rename (only (t twins) y q) (y x) (q p)) (rename (only (t twins) x p) (x y) (p q)))"], "(0.5 1/2 2 1)"),
@@ -270,7 +276,16 @@ fn second_declaration_cases() -> Vec<(Vec<&'static str>, &'static str)> {
 }
 
 fn judge_second_declaration(decls: &[&str], expected: &str) -> Report {
-    let text = format!("{}\n(list x y (p) (q))", decls.join("\n"));
+    // "@EXPR=TEXT": the observation is EXPR instead of (list x y (p) (q))
+    let (observe, expected): (String, &str) = match expected.strip_prefix('@') {
+        Some(rest) => {
+            let k = rest.rfind('=').unwrap();
+            (rest[..k].to_string(), &rest[k + 1..])
+        }
+        None => ("(list x y (p) (q))".to_string(), expected),
+    };
+    let default_observation = observe == "(list x y (p) (q))";
+    let text = format!("{}\n{}", decls.join("\n"), observe);
     let mut rep = Report::new(text);
     rep.nontrivial = true;
     rep.label("several-declarations");
@@ -290,7 +305,7 @@ fn judge_second_declaration(decls: &[&str], expected: &str) -> Report {
                 return o;
             }
         }
-        match s.eval_display("(list x y (p) (q))") {
+        match s.eval_display(&observe) {
             Ok(Some(t)) => Outcome::Value(SVal::Str(t)),
             Ok(None) => Outcome::NoValue,
             Err(e) => Outcome::Value(SVal::Str(format!("error: {}", e))),
@@ -300,7 +315,7 @@ fn judge_second_declaration(decls: &[&str], expected: &str) -> Report {
     match &o {
         Outcome::Value(SVal::Str(t)) if t == expected => {}
         Outcome::Panic { site, msg } => rep.fail(sut::panic_sig(site, msg), "import panicked"),
-        other => rep.fail("later-declaration-does-not-rebind", format!("expected {}, got {}", expected, other.show())),
+        other => rep.fail(if default_observation { "later-declaration-does-not-rebind" } else { "declarations-bind-wrong-names-or-values" }, format!("expected {}, got {}", expected, other.show())),
     }
     rep
 }
@@ -311,7 +326,7 @@ pub fn run(ctx: &Ctx) {
          nesting depth 2 (thorough 3, strided): only/except with every subset of the names available at that point, rename \
          with every admissible renaming of one or two names (targets among the available names and two fresh ones, incl. \
          swaps and chains, targets differing from an available name only in letter case), prefix with three prefixes \
-         (two differing only in case); several declarations on one interpreter rebinding names to values that are = / \
+         (two differing only in case); several declarations on one interpreter (two prefixes over one library; builtins imported under other names stay eqv? to the originals) rebinding names to values that are = / \
          equal?-like the old ones (1/2 and 0.5, two closures of one lambda); plus declarations with two import sets. Each declaration is evaluated \
          on three fresh interpreters in fresh threads (independent hash seeds) with an empty root frame, whose bindings \
          afterwards must be exactly the model's (names and values) and identical across runs; the three runs write the \
